@@ -1,5 +1,6 @@
 """C08 — the HTTP client decodes any response stream exactly as a strict parser does
 (SimpleAsyncHTTPClient.fetch over a scripted FakeStream on the virtual loop vs lean/TornadoModel/C08)."""
+import os
 import gzip as _gzip, re, zlib
 from core.wire import atom, line, parse_reply, Atom
 
@@ -52,7 +53,7 @@ CLAUSES = {
     "1xx interim, 204/304, HEAD": "modelled in onHead/Spec.read; tie only",
 }
 PARALLEL = True
-CASE_TIMEOUT = 60   # wall-clock watchdog per case; generous because the box is shared (a case takes ~5 ms)
+CASE_TIMEOUT = int(os.environ.get("VERIF_CASE_TIMEOUT", "60"))   # wall-clock watchdog per case; generous because the box is shared (a case takes ~5 ms)
 DEFAULT_MAX = 104857600
 
 
@@ -260,7 +261,7 @@ def _status_lines(rng, n):
 
 
 def gen_cases(rng, tier):
-    n = {"quick": 420, "thorough": 9000, "search": 600}[tier]
+    n = {"quick": 420, "thorough": 40000, "search": 600}[tier]
     cases = []
     for i in range(n):
         stream, cfg = _gen_stream(rng)
@@ -277,7 +278,7 @@ def gen_cases(rng, tier):
                 c["streaming"] = not c["streaming"]
             cases.append(_mk(segs, c))
     annotate(cases)
-    cases += list(_status_lines(rng, {"quick": 300, "thorough": 3000, "search": 100}[tier]))
+    cases += list(_status_lines(rng, {"quick": 300, "thorough": 20000, "search": 100}[tier]))
     return cases
 
 
